@@ -1,10 +1,11 @@
 SPECIFICATION Spec
-CONSTANTS MaxN = 4
+CONSTANTS MaxN = 3
 Coords <- C3
-CtrlCoords <- C3
+CtrlCoords <- C2
 Letters <- LettersDeg
-GuardZ = TRUE
-GuardDeg = FALSE
-GuardZeroL = TRUE
+FixZ = TRUE
+FixDeg = FALSE
+FixZeroL = TRUE
+ForgetCp = TRUE
 INVARIANTS Refines InRange
 CHECK_DEADLOCK FALSE
